@@ -100,6 +100,7 @@ fn parts(id: &'static str, tier: Tier, seed: u64) -> Vec<Part> {
         "C19" => vec![
             Part { rule: props_misc::C19_RULE.to_string(), run: Box::new(|ctx, acc| props_misc::run_c19(ctx, acc)) },
             Part { rule: props_misc::C19_INTERRUPTED_RULE.to_string(), run: Box::new(|ctx, acc| props_misc::run_c19_interrupted(ctx, acc)) },
+            Part { rule: props_misc::C19_PRE_RULE.to_string(), run: Box::new(|ctx, acc| props_misc::run_c19_pre_histories(ctx, acc)) },
         ],
         "C10" => vec![Part { rule: props_misc::C10_RULE.to_string(), run: Box::new(|ctx, acc| props_misc::run_c10(ctx, acc)) }],
         "C16" => vec![Part { rule: props_misc::C16_RULE.to_string(), run: Box::new(|ctx, acc| props_misc::run_c16(ctx, acc)) }],
@@ -182,6 +183,7 @@ fn replay_case(id: &'static str, engine: &str, case: serde_json::Value) -> R<Cas
         "C08P" => props_misc::replay_c08_planted(case),
         "C18X" => props_misc::replay_c18x(case),
         "C19I" => props_misc::replay_c19i(case),
+        "C19P" => props_misc::replay_c19p(case),
         "XDEV" => props_e2::replay_xdev(case),
         "C17" => props_misc::replay_c17(case),
         "C19" => props_misc::replay_c19(case),
